@@ -41,6 +41,12 @@ theorem C07_one_minN (b t : Option Rat) :
     (reconcileMinN b t).1 = (reconcileMinN b t).2 ∧ (reconcileMinN b t).1 = b.getD (t.getD 3) :=
   reconcileMinN_spec b t
 
+/-- the detector runs with the given minimum duration when one is given (0 s included), else with the
+reconciled cycle count. -/
+theorem C07_detector_args (minN : Rat) (dur : Option Rat) :
+    detectorArgs minN dur = detectorArgsSpec minN dur := by
+  cases dur <;> simp [detectorArgs, detectorArgsSpec, OptTest.eval, Slots.durationTest]
+
 /-- raising burst_fraction_threshold (or min_n_cycles) never adds a label. -/
 theorem C07_antitone (fracs : List (Option Rat)) (thr thr' minN minN' : Rat) (h : thr ≤ thr') (hk : minN ≤ minN') :
     maskLe (ampSpec fracs thr' minN') (ampSpec fracs thr minN) :=
